@@ -13,21 +13,11 @@ fn log_off() -> log::LevelFilter {
 
 fn noop_bytes_drop(_b: &mut Bytes) {}
 
-// HARNESS: c06_trigger_any_bytes
-// PROPS: C06
-// TIER: quick
-// TIMEOUT: 1500
-// DRIVES: trigger_deserialize, entity_serde::deserialize_entity, postcard_utils::from_buf, client_event::default_deserialize
-// BOUNDS: EVERY byte string of length 0..=12 handed to the trigger decoder (target count varint, targets, one-byte event); no panic (in particular no capacity overflow), the decoding loop terminates, and the target list never reserves more entries than the message has bytes; unwind 15
-// TERMINATION: trigger_deserialize
-#[kani::proof]
-#[kani::unwind(15)]
-#[kani::stub(log::max_level, log_off)]
-#[kani::stub(<bytes::Bytes as core::ops::Drop>::drop, noop_bytes_drop)]
-fn c06_trigger_any_bytes() {
-    let data: &'static [u8; 12] = Box::leak(Box::new(kani::any()));
+/// Every byte string of length 0..=N handed to the trigger decoder.
+fn trigger_any_bytes<const N: usize>() {
+    let data: &'static [u8; N] = Box::leak(Box::new(kani::any()));
     let len: usize = kani::any();
-    kani::assume(len <= 12);
+    kani::assume(len <= N);
     let mut message = Bytes::from_static(&data[..len]);
     kani::cover!(len >= 10 && data[0] == 0xff && data[8] == 0xff, "a huge target count is offered");
     let registry = MaybeUninit::<AppTypeRegistry>::uninit();
@@ -38,9 +28,39 @@ fn c06_trigger_any_bytes() {
         // Every decoded target consumed at least one byte of the message.
         assert!(trigger.targets.len() < len);
         // No allocation out of proportion to the message.
-        assert!(trigger.targets.capacity() <= 12);
+        assert!(trigger.targets.capacity() <= N);
         kani::cover!(trigger.targets.len() == 2, "two targets decoded");
     }
     kani::cover!(result.is_err() && len >= 3, "malformed message rejected");
     core::mem::forget(result);
+}
+
+// HARNESS: c06_trigger_any_bytes
+// PROPS: C06
+// TIER: quick
+// TIMEOUT: 1500
+// DRIVES: trigger_deserialize, entity_serde::deserialize_entity, postcard_utils::from_buf, client_event::default_deserialize
+// BOUNDS: EVERY byte string of length 0..=10 (long enough for a target count of usize::MAX) handed to the trigger decoder (target count varint, targets, one-byte event); no panic (in particular no capacity overflow), the decoding loop terminates, and the target list never reserves more entries than the message has bytes; unwind 13
+// TERMINATION: trigger_deserialize
+#[kani::proof]
+#[kani::unwind(13)]
+#[kani::stub(log::max_level, log_off)]
+#[kani::stub(<bytes::Bytes as core::ops::Drop>::drop, noop_bytes_drop)]
+fn c06_trigger_any_bytes() {
+    trigger_any_bytes::<10>();
+}
+
+// HARNESS: c06_trigger_any_bytes_14
+// PROPS: C06
+// TIER: thorough
+// TIMEOUT: 2400
+// DRIVES: trigger_deserialize, entity_serde::deserialize_entity, postcard_utils::from_buf, client_event::default_deserialize
+// BOUNDS: as c06_trigger_any_bytes with every byte string of length 0..=14; unwind 17
+// TERMINATION: trigger_deserialize
+#[kani::proof]
+#[kani::unwind(17)]
+#[kani::stub(log::max_level, log_off)]
+#[kani::stub(<bytes::Bytes as core::ops::Drop>::drop, noop_bytes_drop)]
+fn c06_trigger_any_bytes_14() {
+    trigger_any_bytes::<14>();
 }
